@@ -1305,6 +1305,9 @@ def call_ext(interp, dotted: str, args: List[V], kwargs: Dict[str, V], node, cc)
         return Term("product", args, kwargs)
     if d in ("scipy.spatial.ConvexHull", "scipy.spatial.Voronoi", "scipy.spatial.SphericalVoronoi",
              "scipy.spatial.Delaunay"):
+        if args:
+            n_pts = value_len(args[0])
+            interp.events.append(("qhull", d, n_pts, interp.where()))
         return ObjV(ext=d, origin=Term(d.split(".")[-1], args, kwargs))
     if d == "scipy.spatial.distance.cdist":
         return Term("cdist", args, kwargs)
